@@ -105,10 +105,10 @@ def _edit_module(tree: ast.Module, qualname: str, old: str, new: str, count: int
             pos = text.find(old, pos + 1)
         text2 = text[:pos] + new + text[pos + len(old):]
     try:
-        newnode = ast.parse(text2).body[0]
+        newnodes = ast.parse(text2).body
     except SyntaxError as e:
         raise Inapplicable(f"edited text of {qualname} does not parse: {e}")
-    body[i] = newnode
+    body[i:i + 1] = newnodes          # an edit may add a sibling definition (e.g. a new cached property)
 
 
 def build_overrides(repo: Repo, v: Variant) -> Dict[str, str]:
